@@ -93,6 +93,7 @@ def run_unit(unit, repo, tier, vacuity=True):
     res = {"unit": unit, "src": src, "funcs": funcs, "errors": errors, "wall_s": wall, "cmd": cmd,
            "verus_verified": vres.get("verified"), "verus_errors": vres.get("errors"), "trusted": trusted,
            "log": log, "extracted": extracted, "text": text, "vacuity": None, "undecided_fns": undecided_fns,
+           "degraded": {x["name"]: x["degraded"] for x in extracted if x.get("degraded")},
            "smt_ms": js.get("times-ms", {}).get("smt", {}).get("smt-run"), "verus_version": js.get("verus", {}).get("version")}
     if vacuity:
         vtext, _, _, _ = vr.build_unit(unit, repo, ROOT, vacuity=True)
@@ -147,16 +148,28 @@ def _check(prop, tier, seed, repo, vacuity=True, update_baseline=False):
         if f.startswith(prop + "-"):
             os.remove(os.path.join(BUILD, "replay", f))
     results, undecided = [], []
+    fallback_wanted = []  # (reason, [harness names])
     for unit in cfg.get("units", []):
         try:
-            results.append(run_unit(unit, repo, tier, vacuity=vacuity))
+            r_ = run_unit(unit, repo, tier, vacuity=vacuity)
+            results.append(r_)
+            for fn_, why in r_["degraded"].items():
+                undecided.append("unit %s: %s could not be woven (%s): its contract is only ASSUMED in this run" % (unit, fn_, why))
+                fallback_wanted.append((fn_, cfg.get("fallback", {}).get(fn_, [])))
         except Undecided as e:
             undecided.append(str(e))
+            fb = sorted(set(h for k, hs in cfg.get("fallback", {}).items() for h in hs if cfg.get("fallback_unit", {}).get(k, unit) == unit))
+            fallback_wanted.append(("unit " + unit, fb))
     # Kani harnesses
     kres = None
     kh = cfg.get("kani", {})
     names = list(kh.get("quick", [])) + (list(kh.get("thorough", [])) if tier == "thorough" else [])
-    if names and not os.environ.get("VERIF_SKIP_KANI"):
+    # fallback: an obligation Verus could not be given (rewritten body, unsupported construct) is handed to the
+    # Kani harnesses attached to it; they can only ADD a violation (with a concrete counterexample), never clear one
+    fb_names = sorted(set(h for _, hs in fallback_wanted for h in hs if h not in names))
+    if fb_names:
+        names = names + fb_names
+    if names and (not os.environ.get("VERIF_SKIP_KANI") or fb_names):
         import kani_run
         try:
             kres = kani_run.run_harnesses(names, repo, tier)
@@ -244,7 +257,7 @@ def _check(prop, tier, seed, repo, vacuity=True, update_baseline=False):
                         violations.append({"unit": "kani", "function": h["name"], "engine": "kani", "errors": [{"message": h.get("failed_checks", ""), "text": "", "rendered": h.get("tail", "")}], "cex": h.get("cex")})
                 else:
                     undecided.append("kani harness %s: %s" % (h["name"], h["status"]))
-            elif h["kind"].startswith("bounded"):
+            elif h["kind"].startswith("bounded") or h["kind"] in ("cex", "fallback"):
                 if h["status"] == "FAILURE":
                     kf = _finding_for(prop, "kani", h["name"], h.get("failed_checks", ""))
                     if kf:
